@@ -1,5 +1,5 @@
 (* C10 - DWT synthesis equals PyWavelets on arbitrary coefficient pyramids (one level, row pass).  Statements only. *)
-From PW Require Import Base.Ops Base.Sum Base.Sig Base.Tensor Model.Dwt Spec.Line Proofs.DwtNF Proofs.LineTheory Proofs.SfbNF Proofs.C10Proofs.
+From PW Require Import Base.Ops Base.Sum Base.Sig Base.Tensor Model.Dwt Spec.Line Proofs.DwtNF Proofs.LineTheory Proofs.SfbNF Proofs.C10Proofs Proofs.C10Proofs2D.
 
 (* zero / symmetric / reflect / periodic: for ANY lo, hi of equal shape (not only transforms of a signal) the model of
    sfb1d returns PyWavelets' idwt closed form  sum_k lo[k] rec_lo[m+L-2-2k] + hi[k] rec_hi[m+L-2-2k], length 2n-L+2 *)
@@ -21,6 +21,21 @@ Theorem C10_level_per_row :
        (fun n c i m => syn_per Op L (tW lo) g0 g1 (fun k => tf lo n c i k) (fun k => tf hi n c i k) m)).
 Proof. exact @sfb1d_per_row_circ. Qed.
 Print Assumptions C10_level_per_row.
+
+(* one 2-D level (SFB2D.forward) on ANY lowpass and ANY three detail bands of equal shape: PyWavelets' idwt2 axis by axis,
+   column pair along the rows axis first, then the row pair along the last axis *)
+Theorem C10_level_2d :
+  forall (R:Type) (Op:Ops R) (Rth:RingOk Op) (low highs:@ten R) Lr gr0 gr1 Lc gc0 gc1 mode, nonper_mode mode ->
+  tN highs = tN low -> tC highs = 3 * tC low -> tH highs = tH low -> tW highs = tW low ->
+  2 <= Lr -> 2 <= Lc -> 0 < tC low -> 1 <= tW low -> 1 <= tH low -> 1 <= 2 * tH low - Lc + 2 -> 1 <= 2 * tW low - Lr + 2 ->
+  is_ok (SFB2D_fwd Op low highs Lr gr0 gr1 Lc gc0 gc1 mode)
+    (fun y => tN y = tN low /\ tC y = tC low /\ tH y = 2 * tH low - Lc + 2 /\ tW y = 2 * tW low - Lr + 2 /\
+       forall n c i j, 0 <= c < tC low -> 0 <= i < 2 * tH low - Lc + 2 -> 0 <= j < 2 * tW low - Lr + 2 ->
+         tf y n c i j = pywt_idwt2 Op Lr gr0 gr1 Lc gc0 gc1 (tH low) (tW low)
+                          (fun p q => tf low n c p q) (fun p q => tf highs n (3*c) p q)
+                          (fun p q => tf highs n (3*c+1) p q) (fun p q => tf highs n (3*c+2) p q) i j).
+Proof. exact @SFB2D_pywt. Qed.
+Print Assumptions C10_level_2d.
 
 (* what the code computes in periodization for EVERY size (characterisation, also inside the known finding) *)
 Theorem C10_level_per_row_code :
